@@ -25,16 +25,16 @@ MUTANTS = [
 ]
 
 
-def check_c03(np, D, logits, k, scale, bonus, eos, with_init):
+def check_c03(np, D, logits, k, scale, bonus, eos, with_init, dec=None, lm=None):
     C = len(logits[0])
     letters = 'ab'
-    lm = S.ToyLM(C - 1, salt=7)
+    lm = lm or S.ToyLM(C - 1, salt=7)
     start = ('<s>',)
     init = None
     if with_init:
         start = ('<s>', 1, 0)
         init = np.asarray([lm.state_of((), start)])
-    boh, h = _ctc.decode(np, D, logits, k, lm=lm, scale=scale, bonus=bonus, eos=eos, init=init, want_h=True)
+    boh, h = _ctc.decode(np, D, logits, k, lm=lm, scale=scale, bonus=bonus, eos=eos, init=init, want_h=True, dec=dec)
     bad = []
     hyps = list(boh)
     for hy in hyps:
@@ -92,6 +92,23 @@ def _chunk(args):
                                         'input': {'logits': lg, 'k': k, 'scale': scale, 'bonus': bonus, 'eos': eos, 'init_state': init}})
         if len(out['samples']) < 2 and len(lg) == 2:
             out['samples'].append({'logits': lg, 'grid_point': list(grid[0])})
+    # ONE long-lived decoder (as PageDecoder keeps it) decodes a text line, a blank-only line, the text line again, a second text
+    # line: every call is held to the same clauses (state kept on the decoder between calls must not leak into the scores)
+    two = [lg for lg in mats if len(lg[0]) == 3 and len(lg) >= 2][:2]
+    if len(two) == 2:
+        blank_only = [[-14.0, -14.0, -1.7e-6]] * 2
+        for (k, scale, bonus, eos, init) in grid:
+            lm = S.ToyLM(2, salt=7)
+            dec = D.CTCPrefixLogRawNumpyDecoder(_ctc.LETTERS2, k=k, lm=lm, lm_scale=scale, insertion_bonus=bonus)
+            for step, lg in enumerate((two[0], blank_only, two[0], two[1])):
+                out['evaluations'] += 1
+                try:
+                    bad = check_c03(np, D, lg, k, scale, bonus, eos, init, dec=dec, lm=lm)
+                except Exception as e:
+                    bad = [('no-exception', 'raised %r' % (e,))]
+                for clause, detail in bad:
+                    out['failures'].append({'clause': clause, 'observed': 'call #%d of one decoder: %s' % (step + 1, detail),
+                                            'input': {'history': [two[0], blank_only, two[0], two[1]][:step + 1], 'k': k, 'scale': scale, 'bonus': bonus, 'eos': eos, 'init_state': init}})
     return out
 
 
@@ -263,7 +280,7 @@ def run(ctx):
     res = bounded.pmap(_chunk, [(c, grid) for c in bounded.shard(mats, 48)])
     seen = set()
     fails = []
-    for f in sorted(res['failures'], key=lambda f: (len(f['input']['logits']), str(f['input']))):
+    for f in sorted(res['failures'], key=lambda f: (len(f['input'].get('logits') or f['input'].get('history') or ()), str(f['input']))):
         s = sig('rt', 'decoder+LM', f['clause'])
         if s in seen:
             continue
@@ -301,6 +318,12 @@ def replay(entry):
     if 'logits' in inp:
         lg = [[float(x) for x in r] for r in inp['logits']]
         bad = check_c03(np, D, lg, inp['k'], inp['scale'], inp['bonus'], inp['eos'], inp['init_state'])
+    elif 'history' in inp:
+        lm = S.ToyLM(2, salt=7)
+        dec = D.CTCPrefixLogRawNumpyDecoder(_ctc.LETTERS2, k=inp['k'], lm=lm, lm_scale=inp['scale'], insertion_bonus=inp['bonus'])
+        bad = []
+        for lg in inp['history']:
+            bad = check_c03(np, D, [[float(x) for x in r] for r in lg], inp['k'], inp['scale'], inp['bonus'], inp['eos'], inp['init_state'], dec=dec, lm=lm)
     else:
         bad = bag_cases(BagOfHypotheses)[1]
     for b in bad[:5]:
